@@ -191,6 +191,8 @@ def coq_eval_failing(tag, header, cases, shard=400, timeout=900):
             fh.write("Definition cases : list bool := [\n  " + ";\n  ".join(cs) + "\n].\n")
             fh.write("Eval vm_compute in (failing 0 cases).\n")
         rc, out, err, dt = sh("coqc -noglob -Q %s RD -w -notation-overridden %s" % (COQ, path), cwd=d, timeout=timeout)
+        if rc == 124:     # a loaded machine is not a disagreement: one retry with a longer limit before giving up
+            rc, out, err, dt = sh("coqc -noglob -Q %s RD -w -notation-overridden %s" % (COQ, path), cwd=d, timeout=3 * timeout)
         for ext in (".vo", ".vok", ".vos", ".glob"):
             try: os.unlink(os.path.join(d, name + ext))
             except OSError: pass
